@@ -122,6 +122,15 @@ func c07Corpus(w *Worker, base []*genCase) []*genCase {
 		}
 		out = append(out, &genCase{Origin: "family:twelve-symbols [references with a leading zero]", Spec: long, Tags: t, Shape: gen.Padded})
 	}
+	// a token value that is no finite number (TypeScript): it must arrive in the actions as the lexer gave it
+	{
+		e2 := gram.Parse("E", []string{"TA"}, "E: E '+' T | T ; T: T '*' F | F ; F: '(' E ')' | TA")
+		t := gen.Tags{}
+		for _, x := range append(e2.Terminals(), e2.Nonterminals()...) {
+			t[x] = "n"
+		}
+		out = append(out, &genCase{Origin: "family:slr-expr [first token carries Infinity]", Spec: e2, Tags: t, Shape: gen.UseAll, InfFirst: true})
+	}
 	// the int member of the %union under everyday names (it must not meet a field of the parser's own records)
 	expr := gram.Parse("E", []string{"TA"}, "E: E '+' T | T ; T: T '*' F | F ; F: '(' E ')' | TA")
 	for _, name := range []string{"pos", "val", "line", "col", "off", "sym", "state", "index", "typ", "text", "num", "str", "node", "list",
@@ -219,6 +228,22 @@ func c17GenJudge(w *Worker, o *obs, variants []string, bad func(kind, variant, i
 		}
 		for i, in := range o.inputs {
 			r := runs[i]
+			if r.Class == "crash" && refM != nil && o.d.Shape != gen.PlainCopy && !strings.Contains(in, "\x01") {
+				// a run that dies: the reductions it traced and executed before that must still be the
+				// first reductions of the legal run on this input
+				legal, out := refRun(refM, o, in)
+				if out != lrm.Looped {
+					w.Count("crashed_runs_compared_with_reference_automaton", 1)
+					ok := len(r.Reds) <= len(legal)
+					for k := 0; ok && k < len(r.Reds); k++ {
+						ok = legal[k] == r.Reds[k].Rule
+					}
+					if !ok {
+						bad("run-not-legal", v, in, fmt.Sprintf("the parser reduced by rules %v (and traced them) before it died with %q; the LR automaton of the grammar reduces by %v on this input", r.Reds, r.Panic, legal), map[string]interface{}{"trace": r.Trace})
+						return
+					}
+				}
+			}
 			if r.Class == "loop" || r.Class == "crash" {
 				continue
 			}
